@@ -213,8 +213,10 @@ class ExpressionManager(object):
             )
             n = up.model.fnode.FNode(content, self._next_free_id, self.environment)
             self._next_free_id += 1
-            self.expressions[content] = n
+            # The node is stored only if it is well-typed, otherwise asking again
+            # for the same ill-typed expression would return it without any error.
             self.environment.type_checker.get_type(n)
+            self.expressions[content] = n
             return n
 
     def And(
